@@ -40,6 +40,10 @@ mut('c01-ready-long-size', 'C01', 'src/codec/command.rs', "            bytes.put
 mut('c01-ready-long-flag', 'C01', 'src/codec/command.rs', "            bytes.put_u8(0x06);", "            bytes.put_u8(0x04);", note='long READY flagged as short')
 mut('c01-ready-len-count', 'C01', 'src/codec/command.rs', "            message_len += val.len() + 4;", "            message_len += val.len() + 2;", note='size field two octets short per property')
 mut('c01-ready-threshold', 'C01', 'src/codec/command.rs', "        let long_message = message_len > 255;", "        let long_message = message_len > 256;", note='256 octet READY body with a one octet size')
+mut('c01-cmd-value-short', 'C01', 'src/codec/command.rs', "            let prop_value = buf.split_to(prop_val_len);\n            properties.insert(property, prop_value);", "            let mut prop_value = buf.split_to(prop_val_len);\n            if prop_val_len > 64 { prop_value.truncate(64); }\n            properties.insert(property, prop_value);", expect='any-nonzero', note='long property values silently truncated (Bytes::truncate has no spec -> undecided acceptable)')
+mut('c01-cmd-first-wins', 'C01', 'src/codec/command.rs', "            properties.insert(property, prop_value);", "            if !properties.contains_key(&property) { properties.insert(property, prop_value); }", expect='any-nonzero', note='duplicate property: first one wins instead of last')
+mut('c01-encode-more-inverted', 'C01', 'src/codec/zmq_codec.rs', "encode_frame(part, dst, idx != last_element);", "encode_frame(part, dst, idx == last_element);", note='MORE only on the last frame')
+mut('c01-encode-last-off-by-one', 'C01', 'src/codec/zmq_codec.rs', "                let last_element = message.len() - 1;", "                let last_element = message.len();", note='MORE set on the last frame too: the peer waits for a frame that never comes')
 # ---------------------------------------------------------------- C02 segmentation
 mut('c02-lose-partial', 'C02', 'src/codec/zmq_codec.rs', "                        Some(v) => v.push_back(data.freeze()),", "                        Some(v) => *v = ZmqMessage::from(data.freeze()),", note='earlier frames of a multipart message are dropped')
 mut('c02-state-not-saved', 'C02', 'src/codec/zmq_codec.rs', "                    self.state = DecoderState::FrameLen(frame);\n", "", note='header consumed but state not advanced: depends on whether the length is in the same read')
@@ -71,6 +75,8 @@ mut('c07-rep-delim-last-back', 'C07', 'src/rep.rs', "                        if 
 mut('c07-prepend-order', 'C07', 'src/message.rs', "        for frame in message.iter().rev() {", "        for frame in message.iter() {", note='multi-frame envelopes are reversed (tests use single-id envelopes... test_prepend covers)')
 mut('c07-rep-envelope-stale', 'C07', 'src/rep.rs', "                    if let Some(envelope) = self.envelope.take() {\n                        message.prepend(&envelope);\n                    }", "                    if let Some(envelope) = &self.envelope {\n                        message.prepend(envelope);\n                    }", note='envelope not consumed')
 mut('c07-pop-front-back', 'C07', 'src/message.rs', "        self.frames.pop_front()\n", "        self.frames.pop_back()\n", note='ZmqMessage::pop_front pops the wrong end')
+mut('c07-rep-loop-at-index', 'C07', 'src/rep.rs', "                                at = index + 1;", "                                at = index;", note='inside the former assumed region: envelope excludes the delimiter')
+mut('c07-rep-loop-last-delim', 'C07', 'src/rep.rs', "                                at = index + 1;\n                                break;", "                                at = index + 1;", note='inside the former assumed region: LAST empty frame taken as delimiter (empty frames in the payload break)')
 # ---------------------------------------------------------------- C08 lock-step
 mut('c08-req-marker-not-set', 'C08', 'src/req.rs', "                self.current_request = Some(next_peer_id);\n", "", note='REQ never records the outstanding request')
 mut('c08-req-send-out-of-turn', 'C08', 'src/req.rs', "        if self.current_request.is_some() {", "        if self.current_request.is_some() && self.backend.round_robin.len() == 0 {", expect='any-nonzero', note='second send allowed while peers are connected (SegQueue::len not in stand-in -> undecided acceptable)')
